@@ -34,6 +34,12 @@ Theorem C08_spec_mx_roundtrip : forall pref exchange b, 0 <= pref < 65536 -> enc
   dec_mx b = Some (pref, exchange).
 Proof. exact dec_enc_mx. Qed.
 Print Assumptions C08_spec_mx_roundtrip.
+(* TXT: every text - of more than 255 octets too - has an encoding as character-strings, and decoding the encoding (concatenating
+   the strings of the RDATA) gives the text back; a text of at most 255 octets is one string *)
+Theorem C08_spec_txt_roundtrip : forall s, exists b, enc_txt s = Some b /\ dec_txt b = Some s.
+Proof. exact dec_enc_txt. Qed.
+Theorem C08_spec_txt_short : forall s, zlen s <= 255 -> enc_txt s = Some (enc_uint 1 (zlen s) ++ s).
+Proof. exact enc_txt_short. Qed.
 Theorem C08_spec_ds_roundtrip : forall kt a d digest, 0 <= kt < 65536 -> 0 <= a < 256 -> 0 <= d < 256 ->
   dec_ds (enc_ds kt a d digest) = Some (kt, a, d, digest).
 Proof. exact dec_enc_ds. Qed.
